@@ -177,6 +177,8 @@ impl Prop for C14 {
             45, 46, 47, 48, 49, 50, 62, 63, 64, 65, 66, 95, 96, 97, 127, 128, 129, 191, 192, 193,
             255, 256, 257, 4093, 4094, 4095, 4096, 4097, 4098, 4099,
         ];
+        // Miri interprets ~10^4 times slower: keep its inputs short
+        let tier = if cfg!(miri) { Tier::Quick } else { tier };
         let max_special = if tier.quick() { 257 } else { 5000 };
         let len = match index % 4 {
             0 | 1 => (index / 4 % 201) as usize,
